@@ -37,7 +37,7 @@ func closedRing(v [][2]int) [][2]int {
 
 // c08Ring calls one of the 2-d entry points on a lattice multipolygon and emits the event.
 func c08Ring(c *ctx, fn string, box [4]int, in [][][][2]int, st int) [][][][2]int {
-	s := float64(c08S)
+	s := float64(c08S) * figScale()
 	b := toBound(box, s)
 	g := mpOf(in, s)
 	e := clipRingEv{K: "clipring", Fn: fn, Box: box, In: in, St: st, S: c08S}
